@@ -94,6 +94,19 @@ func (st *State) epochOf(key string) string {
 	return st.epoch
 }
 
+// knows: the term is literally one of the path-condition facts (a cheap syntactic test).
+func (st *State) knows(term string) bool {
+	if term == "true" {
+		return true
+	}
+	for _, p := range st.pc {
+		if p == term {
+			return true
+		}
+	}
+	return false
+}
+
 func (st *State) clone() *State {
 	n := &State{pc: append([]string(nil), st.pc...), vars: make(map[types.Object]*Val, len(st.vars)), heap: make(map[string]string, len(st.heap)), defers: append([]deferred(nil), st.defers...), epoch: st.epoch, gepoch: st.gepoch}
 	for k, v := range st.vars {
